@@ -30,6 +30,6 @@ func init() {
 			"series order is that of the storage series keys (measurement, tag set, field); the order of series inside one group of a GroupBy read and the position of groups whose partition key has a missing tag are not judged (not fixed by the property)",
 			"series returned with an empty or nil cursor count as not returned; a != comparison on a tag the series does not carry leaves membership open (InfluxQL and Flux disagree)",
 			"reads overlapping writers/deleters are judged with interval semantics (model.History); aggregates, window reads and field-value predicates are not generated",
-			"TagKeys/TagValues are only judged when no writer runs: sorted, duplicate-free, every value of a matching series with live data in range listed (values of data-less series are C42's subject)"},
+			"TagKeys/TagValues of the service are outside the property's statement: they are compared when no writer runs (sorted, duplicate-free, every value of a matching series with live data in range listed) and differences are recorded as observations of class C42:svc-tag-meta-*, which do not gate C21"},
 	})
 }
